@@ -14,6 +14,7 @@ mod c12;
 mod c13;
 mod c14;
 mod c15;
+mod c19;
 mod c20;
 mod reftest;
 
@@ -70,6 +71,7 @@ fn main() {
         "C13" => c13::run(report),
         "C14" => c14::run(report),
         "C15" => c15::run(report),
+        "C19" => c19::run(report),
         "C20" => c20::run(report),
         _ => {
             eprintln!("unknown property {id}");
